@@ -405,7 +405,7 @@ def run(tier, seed, only=None):
                            verdict=BROKEN if kbad else HELD,
                            reason=("callee contract differs from the real code: " + "; ".join(kbad[:3])) if kbad else
                            "TyParam::cheap_cmp / TyParam equality agree with the assumed contracts on %d integer-literal pairs" % (len(ints) ** 2)))
-        tbad, tn = [], 0
+        tbad, tn, timprecise = [], 0, []
         for i, (key, op, cs) in enumerate(tv):
             got = res.get("t.%d" % i, "")
             W, flow, paths, specs, op, _mode = runs[key]
@@ -426,11 +426,14 @@ def run(tier, seed, only=None):
                 pred += outs.pop() if len(outs) == 1 else "?"
             tn += 1
             rep.replayed += 1
-            if got != pred:
+            if "?" in pred and all(a == b or b == "?" for a, b in zip(got, pred)) and len(got) == len(pred):
+                timprecise.append(key)
+            elif got != pred:
                 tbad.append("%s on %s: real %s, encoding %s" % (key, [c if c[0] == "raw" else conc_erg(c) for c in cs], got, pred))
         rep.add(Obligation(dict(engine="mirsem vs native", functions=["Predicate::and", "Predicate::or", "Predicate::invert"]), key="translation/validated",
-                           nontrivial=False, verdict=BROKEN if tbad else HELD,
+                           nontrivial=False, verdict=BROKEN if tbad else INCONCLUSIVE if timprecise else HELD,
                            reason=("the encoding disagrees with the real functions: " + " | ".join(tbad[:4])) if tbad else
+                           ("the encoding leaves the result open on %d concrete operand tuples (an unmodelled callee): %s" % (len(timprecise), sorted(set(timprecise))[:4])) if timprecise else
                            "on %d concrete operand tuples the predicate the real function returns has, at each integer of -4..4, the truth value the symbolic execution predicts" % tn))
         for i, (ob, op, cs, i0) in enumerate(to_replay):
             got = res.get("r.%d" % i)
